@@ -18,7 +18,7 @@ theorem C36_connect_fresh (k : Kind) (evs : List Ev) :
     ∀ e ∈ (run (init k) evs).returned, e.2.creator = e.1 :=
   (run_inv evs (init k) (init_inv k)).2.1
 
-example : (run (init .sqliteFile) [.act 0 .connect, .act 0 .release, .fork 0, .act 1 .connect, .act 0 .connect]).returned
+example : (run (init .sqliteFile) [.act 0 0 .connect, .act 0 0 .release, .fork 0 0, .act 1 0 .connect, .act 0 0 .connect]).returned
     = [(0, ⟨0, 0⟩), (1, ⟨2, 1⟩), (0, ⟨0, 0⟩)] := by decide
 
 /-- `SQLitePool.__init__` never sets `pool.pid`; in no history is the missing attribute read. -/
@@ -32,16 +32,24 @@ theorem C36_pid_is_creator (k : Kind) (evs : List Ev) :
 
 /-! ### 2. a process's record is untouched by the events of other processes (in particular the parent's by the child's) -/
 
-theorem C36_frame_step (w : World) (e : Ev) (q : Proc) (hq : q ∈ w.procs) (h : e.actor ≠ q.pid) : q ∈ (step w e).procs := by
+theorem C36_frame_step (w : World) (e : Ev) (q : Proc) (hq : q ∈ w.procs) (h : e.actor ≠ (q.pid, q.tid)) : q ∈ (step w e).procs := by
   cases e with
-  | act p a =>
+  | act p t a =>
     simp only [step, List.mem_map]
     refine ⟨q, hq, ?_⟩
-    have : ¬ q.pid = p := fun hp => h (by simp [Ev.actor, hp])
+    have : sel p t q = false := by
+      cases hs : sel p t q with
+      | false => rfl
+      | true =>
+        simp [sel] at hs
+        exact absurd (by simp [Ev.actor, hs.1, hs.2]) h
     simp [this]
-  | fork p => simp [step, hq]
+  | fork p t => simp [step, hq]
+  | spawn p t => simp only [step]; split <;> simp [hq]
 
-theorem C36_parent_unchanged (evs : List Ev) : ∀ (w : World) (q : Proc), q ∈ w.procs → (∀ e ∈ evs, e.actor ≠ q.pid) →
+/-- a thread's record is untouched by everything other threads and other processes do (in particular the parent's records
+    by anything its children do, and a thread's by its siblings) -/
+theorem C36_parent_unchanged (evs : List Ev) : ∀ (w : World) (q : Proc), q ∈ w.procs → (∀ e ∈ evs, e.actor ≠ (q.pid, q.tid)) →
     q ∈ (run w evs).procs := by
   induction evs with
   | nil => intro w q hq _; exact hq
@@ -49,13 +57,25 @@ theorem C36_parent_unchanged (evs : List Ev) : ∀ (w : World) (q : Proc), q ∈
     intro w q hq h
     exact ih (step w e) q (C36_frame_step w e q hq (h e List.mem_cons_self)) (fun e' he' => h e' (List.mem_cons_of_mem _ he'))
 
-/-- forking changes nothing in the forking process either: the child is a copy with a new pid -/
-theorem C36_fork_copies (w : World) (p : Nat) (q : Proc) (hq : q ∈ w.procs) (hp : q.pid = p) :
-    q ∈ (step w (.fork p)).procs ∧ { q with pid := w.nextPid, fresh := false } ∈ (step w (.fork p)).procs := by
+/-- forking changes nothing in the forking thread's record either: the child's (only) thread starts with a copy under a new pid -/
+theorem C36_fork_copies (w : World) (p t : Nat) (q : Proc) (hq : q ∈ w.procs) (hp : q.pid = p) (ht : q.tid = t) :
+    q ∈ (step w (.fork p t)).procs ∧ { q with pid := w.nextPid, fresh := false } ∈ (step w (.fork p t)).procs := by
   simp only [step, List.mem_append, List.mem_map, List.mem_filter]
-  exact ⟨Or.inl hq, Or.inr ⟨q, ⟨hq, by simp [hp]⟩, rfl⟩⟩
+  exact ⟨Or.inl hq, Or.inr ⟨q, ⟨hq, by simp [sel, hp, ht]⟩, rfl⟩⟩
 
-example : (∀ e ∈ [Ev.act 1 .connect, .act 1 .stmt, .act 1 .drop, .act 1 .disconnect], e.actor ≠ 0) := by decide
+/-- a thread started in any process (a forked child included) begins with an empty record: its first connect is a fresh one -/
+theorem C36_spawned_thread_fresh (w : World) (p t : Nat) (q : Proc) (hq : q ∈ (step w (.spawn p t)).procs) (hn : q ∉ w.procs) :
+    q.pid = p ∧ q.tid = t ∧ q.pool.con = none ∧ q.held = none := by
+  rcases mem_step_spawn hq with h | rfl
+  · exact absurd h hn
+  · exact ⟨rfl, rfl, initPool_con _, rfl⟩
+
+example : (∀ e ∈ [Ev.act 1 0 .connect, .act 1 0 .stmt, .act 0 1 .drop, .spawn 0 2, .fork 0 1], e.actor ≠ (0, 0)) := by decide
+
+/-- two threads in the parent, a fork from the worker thread, a new thread in the child: every connection is the caller's own -/
+example : (run (init .sqliteFile) [.act 0 0 .connect, .act 0 0 .release, .spawn 0 1, .act 0 1 .connect, .act 0 1 .release, .fork 0 1,
+      .act 1 1 .connect, .spawn 1 2, .act 1 2 .connect, .act 0 0 .connect, .act 0 1 .connect]).returned
+    = [(0, ⟨0, 0⟩), (0, ⟨2, 0⟩), (1, ⟨4, 1⟩), (1, ⟨5, 1⟩), (0, ⟨0, 0⟩), (0, ⟨2, 0⟩)] := by decide
 
 /-! ### 3. the first `connect` of a forked child parks the inherited connection: it is neither closed nor used -/
 
@@ -85,10 +105,10 @@ theorem C36_retry_after_failed_connect_is_fresh (k : Kind) (s s' : Nat) (q : Pro
     obtain ⟨h1, h2⟩ := poolConnectFail_failed _ _ _ _ _ hf
     simp [h1, h2, poolConnect]
 
-example : (localStep .sqliteFile 5 { pid := 1, pool := { con := some ⟨0, 0⟩, pid := some 0, pidAttr := true, forked := [] }, held := none, fresh := false } .connectFail).2.failed = true := by decide
+example : (localStep .sqliteFile 5 { pid := 1, tid := 0, pool := { con := some ⟨0, 0⟩, pid := some 0, pidAttr := true, forked := [] }, held := none, fresh := false } .connectFail).2.failed = true := by decide
 
 /-- the same on whole histories: a child whose first connection attempt fails and which then retries (witness of the seeded change c36-1) -/
-example : (run (init .sqliteFile) [.act 0 .connect, .act 0 .release, .fork 0, .act 1 .connectFail, .act 1 .connect, .act 1 .stmt]).stmts
+example : (run (init .sqliteFile) [.act 0 0 .connect, .act 0 0 .release, .fork 0 0, .act 1 0 .connectFail, .act 1 0 .connect, .act 1 0 .stmt]).stmts
     = [(0, ⟨0, 0⟩), (1, ⟨3, 1⟩)] := by decide
 
 /-! ### 4. statements and close() calls only ever reach connections of the acting process — under caller discipline -/
@@ -103,11 +123,11 @@ def C36_only_own_connections_full : Prop :=
     closes the inherited connection object.  Both are replayed on real Pony by the engine on every run. -/
 theorem C36_only_own_connections_full_false : ¬ C36_only_own_connections_full := by
   intro h
-  have := (h .sqliteFile [.act 0 .connect, .fork 0, .act 1 .stmt]).1 (1, ⟨0, 0⟩) (by decide)
+  have := (h .sqliteFile [.act 0 0 .connect, .fork 0 0, .act 1 0 .stmt]).1 (1, ⟨0, 0⟩) (by decide)
   exact absurd this (by decide)
 
 theorem C36_stale_disconnect_closes_parent_connection :
-    (1, (⟨0, 0⟩ : Conn)) ∈ (run (init .base) [.act 0 .connect, .act 0 .release, .fork 0, .act 1 .disconnect]).closed := by decide
+    (1, (⟨0, 0⟩ : Conn)) ∈ (run (init .base) [.act 0 0 .connect, .act 0 0 .release, .fork 0 0, .act 1 0 .disconnect]).closed := by decide
 
 /-- C36, second half (strongest partial statement): in every history that respects G1 and G2 — whatever else the processes
     do, in any interleaving, to any depth of forking — every statement (including the ROLLBACK of `release`) and every
@@ -118,8 +138,8 @@ theorem C36_only_own_connections_partial (k : Kind) (evs : List Ev) (hd : discip
   (run_inv2 evs (init k) (init_inv k) (init_inv2 k) hd).2
 
 example : disciplined (run (init .sqliteFile)
-    [.act 0 .connect, .act 0 .stmt, .act 0 .release, .fork 0, .act 1 .connect, .act 1 .stmt, .act 1 .drop, .act 1 .disconnect,
-     .act 0 .connect, .act 0 .stmt, .fork 1, .act 2 .connect, .act 2 .release]) := by unfold disciplined; decide
+    [.act 0 0 .connect, .act 0 0 .stmt, .act 0 0 .release, .fork 0 0, .act 1 0 .connect, .act 1 0 .stmt, .act 1 0 .drop, .act 1 0 .disconnect,
+     .act 0 0 .connect, .act 0 0 .stmt, .fork 1 0, .act 2 0 .connect, .act 2 0 .release]) := by unfold disciplined; decide
 
 /-! ### 5. the Oracle provider's pool (`OraPool`: a cx_Oracle SessionPool per process) -/
 
